@@ -6,6 +6,10 @@ PROPS = {
     "C10": {"builds": ["full", "nodef"], "mc": []},
     "C11": {"builds": ["full", "nodef"], "mc": []},
     "C12": {"builds": ["full", "nodef"], "mc": []},
+    "C01": {"builds": ["full", "nodef"], "mc": []},
+    "C02": {"builds": ["full", "nodef"], "mc": []},
+    "C07": {"builds": ["full", "nodef"], "mc": []},
+    "C08": {"builds": ["full", "nodef"], "mc": []},
 }
 for _p in PROPS.values():
     _p.setdefault("dev", PINNED)
